@@ -7,7 +7,7 @@ git apply "$P" || { echo "patch does not apply"; exit 2; }
 cd /verif
 for c in "$@"; do
   echo "---- $(basename $P) vs $c ($T)"
-  timeout 3000 ./rv check $c --tier $T > /tmp/try_patch.$$.out 2>&1
+  RV_EVIDENCE_DIR=/tmp/rv-matrix-evidence timeout 3000 ./rv check $c --tier $T > /tmp/try_patch.$$.out 2>&1
   grep -E "key=" /tmp/try_patch.$$.out | cut -c1-220 | head -${SHOW:-3}
   grep -E "^$c $T|rv: cargo build" /tmp/try_patch.$$.out | cut -c1-200
 done
